@@ -274,6 +274,7 @@ package protocol
 //@   wraps_signed
 //@   requires s != nil && s.sendQueue != nil && s.recvBuf != nil && s.recvQueue != nil && ghost(sq) == s.sendQueue && ghost(rq) != s.sendQueue
 //@   requires 1280 <= s.mtu && s.mtu <= 1500
+//@   assert_call segmentTree.Insert: [C13 C01] len(arg0.payload) == 0 || baseof(arg0.payload) != baseof(b)
 //@   ensures err == nil ==> n == len(b) && len(b) <= 32768
 //@   ensures [C03] err == nil ==> ghost(sqrem) >= 1
 //@   ensures [C13 C01] err == nil && len(b) > 0 ==> s.nextSend.v != old(s.nextSend.v) || len(b) == 0
@@ -292,14 +293,17 @@ package protocol
 //@ // Accounting (C19): every byte a server session accepts from its application - the n
 //@ // it returns, also when a later chunk fails - is added once to the user's download counter.
 //@ func (s *Session) Write(b []byte) (n int, err error)
-//@   property C19
+//@   property C19 C13 C01
 //@   mode int
 //@   partial
 //@   posts_only
 //@   noframe
 //@   requires s != nil
-//@   ensures !old(s.isClient) && old(s.downloadBytes) != nil ==> ghost(added) == old(ghost(added)) + mathint(n)
-//@   ensures !old(s.isClient) && old(s.downloadBytes) == nil ==> ghost(added) == old(ghost(added))
+//@   // what enters the send queue never shares memory with the caller's buffer: the caller may
+//@   // reuse b as soon as Write returns, and a retransmission must carry the same bytes (C13, C01)
+//@   assert_call segmentTree.Insert: [C13 C01] len(arg0.payload) == 0 || baseof(arg0.payload) != baseof(b)
+//@   ensures [C19] !old(s.isClient) && old(s.downloadBytes) != nil ==> ghost(added) == old(ghost(added)) + mathint(n)
+//@   ensures [C19] !old(s.isClient) && old(s.downloadBytes) == nil ==> ghost(added) == old(ghost(added))
 //@   loop 1:
 //@     invariant 0 <= n && n + len(b) == old(len(b))
 //@     invariant ghost(added) == old(ghost(added))
@@ -355,7 +359,8 @@ package protocol
 //@   noframe
 //@   may_panic
 //@   preserves ghost(wr), ghost(dsent)
-//@   requires u != nil
+//@   requires u != nil && (u.isClient ==> u.block != nil)
+//@   check_pre parseSessionSegment, parseDataAckSegment, serverTryDecryptMetadataForNewSession
 //@   assert_call ReplayCache.IsDuplicate: len(arg0) == 16 && baseof(arg0) == baseof(b) && len(b) >= 48
 //@   // the receive buffer holds any datagram a peer may legally send: the largest MTU the
 //@   // configuration accepts is 1500 (C02: a truncated datagram is dropped at every retransmission)
@@ -363,19 +368,19 @@ package protocol
 //@   assert_at "return seg, addr, nil": u.isClient || (!isNewSessionReplay && blockCipher != nil)
 //@   ensures seg != nil && !old(u.isClient) ==> seg.block != nil
 //@   loop 1:
-//@     invariant u.isClient == old(u.isClient)
+//@     invariant u.isClient == old(u.isClient) && (u.isClient ==> u.block != nil)
 //@
 //@ func (u *PacketUnderlay) tryDecryptExistingSession(encryptedMeta []byte, addr net.Addr) (decryptedMeta []byte, blockCipher cipher.BlockCipher, matchedPolicy serveruser.Policy, decrypted bool)
 //@   mode int
 //@   noframe
-//@   preserves PacketUnderlay.baseUnderlay.isClient, ghost(wr), ghost(dsent)
+//@   preserves PacketUnderlay.baseUnderlay.isClient, PacketUnderlay.block, ghost(wr), ghost(dsent)
 //@   requires u != nil
 //@
 //@ func (u *PacketUnderlay) serverTryDecryptMetadataForNewSession(encryptedMeta []byte, source serveruser.Source) (b cipher.BlockCipher, meta []byte, auth serveruser.Authentication, err error)
 //@   property C05
 //@   mode int
 //@   noframe
-//@   preserves PacketUnderlay.baseUnderlay.isClient, ghost(wr), ghost(dsent)
+//@   preserves PacketUnderlay.baseUnderlay.isClient, PacketUnderlay.block, ghost(wr), ghost(dsent)
 //@   requires u != nil && len(encryptedMeta) >= 24
 //@   ensures err == nil ==> b != nil
 //@
@@ -388,7 +393,7 @@ package protocol
 //@   mode int
 //@   noframe
 //@   may_panic
-//@   preserves ghost(wr), ghost(dsent), PacketUnderlay.baseUnderlay.isClient, sessionStruct.payloadLen, sessionStruct.suffixLen
+//@   preserves ghost(wr), ghost(dsent), PacketUnderlay.baseUnderlay.isClient, PacketUnderlay.block, sessionStruct.payloadLen, sessionStruct.suffixLen
 //@   requires u != nil && ss != nil && (u.isClient ==> u.block != nil)
 //@   ensures err == nil && ss.payloadLen > 0 ==> len(remaining) == int(ss.payloadLen) + 16 + int(ss.suffixLen)
 //@   ensures err == nil && ss.payloadLen == 0 ==> len(remaining) == int(ss.suffixLen)
@@ -400,7 +405,7 @@ package protocol
 //@   mode int
 //@   noframe
 //@   may_panic
-//@   preserves ghost(wr), ghost(dsent), PacketUnderlay.baseUnderlay.isClient, dataAckStruct.payloadLen, dataAckStruct.suffixLen, dataAckStruct.prefixLen
+//@   preserves ghost(wr), ghost(dsent), PacketUnderlay.baseUnderlay.isClient, PacketUnderlay.block, dataAckStruct.payloadLen, dataAckStruct.suffixLen, dataAckStruct.prefixLen
 //@   requires u != nil && das != nil && (u.isClient ==> u.block != nil)
 //@   ensures err == nil && das.payloadLen > 0 ==> len(remaining) == int(das.prefixLen) + int(das.payloadLen) + 16 + int(das.suffixLen)
 //@   ensures err == nil && das.payloadLen == 0 ==> len(remaining) == int(das.prefixLen) + int(das.suffixLen)
@@ -412,7 +417,7 @@ package protocol
 //@ // so the next read starts at the next segment's metadata whatever the chunking of the
 //@ // stream; the payload handed on comes from a successful Decrypt of exactly those bytes.
 //@ func (t *StreamUnderlay) readSessionSegment(ss *sessionStruct) (seg *segment, err error)
-//@   property C01 C04
+//@   property C01 C04 C10
 //@   mode int
 //@   noframe
 //@   posts_only
@@ -422,9 +427,11 @@ package protocol
 //@   ensures err == nil && ss.payloadLen == 0 ==> ghost(rd) == old(ghost(rd)) + mathint(ss.suffixLen)
 //@   ensures err == nil ==> seg != nil && seg.block == t.recv && typeof(seg.metadata) == typeid(*sessionStruct) && payload(seg.metadata, *sessionStruct) == ss
 //@   ensures err != nil ==> seg == nil
+//@   // every failure carries an error type the event loop knows how to handle (it panics on UNKNOWN_ERROR)
+//@   ensures [C10] err != nil ==> typeof(err) == typeid(stderror.TypedError) && payload(err, stderror.TypedError).errType != stderror.UNKNOWN_ERROR && payload(err, stderror.TypedError).errType != stderror.NO_ERROR
 //@
 //@ func (t *StreamUnderlay) readDataAckSegment(das *dataAckStruct) (seg *segment, err error)
-//@   property C01 C04
+//@   property C01 C04 C10
 //@   mode int
 //@   noframe
 //@   posts_only
@@ -434,29 +441,34 @@ package protocol
 //@   ensures err == nil && das.payloadLen == 0 ==> ghost(rd) == old(ghost(rd)) + mathint(das.prefixLen) + mathint(das.suffixLen)
 //@   ensures err == nil ==> seg != nil && seg.block == t.recv && typeof(seg.metadata) == typeid(*dataAckStruct) && payload(seg.metadata, *dataAckStruct) == das
 //@   ensures err != nil ==> seg == nil
+//@   ensures [C10] err != nil ==> typeof(err) == typeid(stderror.TypedError) && payload(err, stderror.TypedError).errType != stderror.UNKNOWN_ERROR && payload(err, stderror.TypedError).errType != stderror.NO_ERROR
 //@
 //@ // TCP receive path (C05, C06): same fingerprint rule; nothing is written to the
 //@ // connection while a segment is read; a segment is returned only once a receive
 //@ // cipher is installed (on a server: only after Discover authenticated the first
 //@ // segment and it was not a replay), and a failed first segment leaves none installed.
 //@ func (t *StreamUnderlay) readOneSegment() (seg *segment, err error)
-//@   property C05
+//@   property C05 C10
 //@   mode int
 //@   partial
 //@   posts_only
 //@   noframe
 //@   may_panic
 //@   preserves ghost(wr), ghost(dsent), StreamUnderlay.send, StreamUnderlay.baseUnderlay.isClient
-//@   requires t != nil
+//@   requires t != nil && t.conn != nil && typeof(t.conn) != typeid(*bytes.Reader)
+//@   check_pre readSessionSegment, readDataAckSegment, serverInitRecvBlockCipherAndDecryptMetadata
 //@   assert_call ReplayCache.IsDuplicate: len(arg0) == 16 && baseof(arg0) == baseof(encryptedMeta) && len(encryptedMeta) >= 48
 //@   assert_at "return seg, nil": t.recv != nil && (t.isClient || !isNewSessionReplay)
 //@   ensures seg != nil ==> t.recv != nil
+//@   // every failure carries an error type the event loop knows how to handle: RunEventLoop
+//@   // panics on UNKNOWN_ERROR, which would take down every user's sessions (C10)
+//@   ensures [C10] err != nil ==> typeof(err) == typeid(stderror.TypedError) && payload(err, stderror.TypedError).errType != stderror.UNKNOWN_ERROR && payload(err, stderror.TypedError).errType != stderror.NO_ERROR
 //@
 //@ func (t *StreamUnderlay) serverInitRecvBlockCipherAndDecryptMetadata(encryptedMeta []byte) (meta []byte, auth serveruser.Authentication, err error)
 //@   property C05
 //@   mode int
 //@   noframe
-//@   preserves ghost(wr), ghost(dsent), StreamUnderlay.send, StreamUnderlay.baseUnderlay.isClient
+//@   preserves ghost(wr), ghost(dsent), StreamUnderlay.send, StreamUnderlay.baseUnderlay.isClient, StreamUnderlay.conn
 //@   requires t != nil && len(encryptedMeta) >= 24
 //@   ensures err == nil ==> t.recv != nil && old(t.recv) == nil
 //@   ensures err != nil ==> t.recv == nil || t.recv == old(t.recv)
@@ -506,6 +518,31 @@ package protocol
 //@   property C05
 //@ struct callers StreamUnderlay.onOpenSessionRequest = {StreamUnderlay.RunEventLoop}
 //@   property C05
+//@
+//@ // A session created for a peer inherits the MTU configured on the underlay that received
+//@ // the request (C14: fragments are cut for the MTU the datagrams are budgeted against), is a
+//@ // server session, and takes the id the request announced.
+//@ func (u *PacketUnderlay) onOpenSessionRequest(seg *segment, remoteAddr net.Addr) (err error)
+//@   property C14 C05
+//@   mode int
+//@   partial
+//@   posts_only
+//@   noframe
+//@   may_panic
+//@   requires u != nil && seg != nil
+//@   assert_call newSessionWithServerUserPolicy: arg0 != 0 && arg1 == false && arg2 == u.mtu
+//@   ensures old(u.isClient) ==> err != nil
+//@
+//@ func (t *StreamUnderlay) onOpenSessionRequest(seg *segment) (err error)
+//@   property C14 C05
+//@   mode int
+//@   partial
+//@   posts_only
+//@   noframe
+//@   may_panic
+//@   requires t != nil && seg != nil
+//@   assert_call newSessionWithServerUserPolicy: arg0 != 0 && arg1 == false && arg2 == t.mtu
+//@   ensures old(t.isClient) ==> err != nil
 //@
 //@ // The only functions of this package that put bytes on the wire (C05): everything a
 //@ // receive path does before a segment is authenticated is outside this set.
